@@ -158,7 +158,7 @@ def mk_block_dec_e2(L):
         from vf import pysym
 
         def solve(reach):
-            src = open("/repo/aiocoap/optiontypes.py").read()
+            src = __import__("vf.api", fromlist=["x"]).repo_source("aiocoap/optiontypes.py")
             hooks = {"self.BlockwiseTuple": lambda I, p, **kw: dict(kw)}
             I = pysym.Interp(src, "BlockOption", width=64, hooks=hooks)
             raw = pysym.sym_bytes("raw", L)
